@@ -122,10 +122,12 @@ func (f *Processor) Enqueue(peer string, events dag.Events, ordered bool, notify
 		}
 	})
 	if err != nil {
+		// the batch wasn't accepted, so none of its events will be released later
+		f.eventsSemaphore.Release(events.Metric())
 		return err
 	}
 	eventsLen := len(events)
-	return f.orderedInserter.Enqueue(func() {
+	err = f.orderedInserter.Enqueue(func() {
 		if done != nil {
 			defer done()
 		}
@@ -162,6 +164,11 @@ func (f *Processor) Enqueue(peer string, events dag.Events, ordered bool, notify
 			notifyAnnounces(toRequest)
 		}
 	})
+	if err != nil {
+		// the batch wasn't accepted, so none of its events will be released later
+		f.eventsSemaphore.Release(events.Metric())
+	}
+	return err
 }
 
 func (f *Processor) process(peer string, event dag.Event, resErr error) (toRequest hash.Events) {
